@@ -615,11 +615,18 @@ func everyEmailRulePasses(pol *Policy, email string) bool {
 
 // cleanExcept reports that no fault other than the answer of endpoint ep touched this request.
 func (o *Oracle) cleanExcept(e *Exchange, ep string) bool {
+	seen := 0
 	for _, c := range e.Children {
 		if c.Link != L2 {
 			continue
 		}
 		if endpointOf(c.Path) == ep {
+			// a handler that authenticates twice (/favicon.ico does) makes the due check twice; if the
+			// second answer is not the same outage, the request's fate is no longer about the first
+			seen++
+			if seen > 1 && !(c.Err == "" && (c.Status == 429 || c.Status == 503)) {
+				return false
+			}
 			continue
 		}
 		if c.Err != "" || c.Injected != "" {
